@@ -993,7 +993,7 @@ func c08r4(c *Ctx) {
 		}
 	}
 	// previous never contains current, at every invocation
-	calls := rvSubReconcilerCalls(p.FuncsIn(pkgObjDeploy))
+	calls := rvSubReconcilerCalls(p, p.FuncsIn(pkgObjDeploy))
 	if len(calls) == 0 {
 		c.AnchorLost("invocation of a sub-reconciler (ctx, ObjectSetAccessor, []ObjectSetAccessor, ObjectDeploymentAccessor)")
 	}
@@ -1011,7 +1011,7 @@ func c08r4(c *Ctx) {
 		var problems []string
 		for _, cs := range cases {
 			cur, prev := stripConv(cs.Vals[0]), stripConv(cs.Vals[1])
-			if isNilConst(cur) || isNilConst(prev) || p.nilnessFromFacts(cs.Facts, args[1]) == yesTri {
+			if isNilConst(cur) || isNilConst(prev) || p.rvCaseKnownNil(cs, args[1]) {
 				continue
 			}
 			ia := rvElemAddr(cur)
@@ -1035,7 +1035,7 @@ func c08r4(c *Ctx) {
 // c08ParamIsPrevList: parameter prm of fn is, through every static caller chain, the
 // previous-revisions parameter of a sub-reconciler method. Returns "" when so.
 func (p *Program) c08ParamIsPrevList(fn *ssa.Function, prm *ssa.Parameter, depth int) string {
-	if fn.Signature.Recv() != nil && rvIsSubReconcilerSig(fn.Signature) {
+	if fn.Signature.Recv() != nil && rvIsSubReconcilerSig(fn.Signature) && !p.inlinable(fn) {
 		if rvIsAccessorSlice(prm.Type()) {
 			return ""
 		}
